@@ -43,7 +43,7 @@ impl KmsProvider for Provider {
         match self.fault.borrow().as_str() {
             "err" => return Err(KmsError::OperationFailed("injected".into())),
             "wrongkey" => return Ok(interp::sha512(&[b"another-key"])[..32].to_vec()),
-            "wronglen" => return Ok(vec![7u8; 16]),
+            "wronglen" => { let n = [0usize, 16, 31, 33, 64, 1][wrapped.len() % 6]; return Ok(vec![7u8; n]); }   // an unrelated key of another length
             _ => {}
         }
         let right: Result<Vec<u8>, KmsError> = if self.auth {
